@@ -27,7 +27,7 @@ LEVEL_TEXT = ('Complete sweep of the stated matrix-kind x size x wrapping x nois
 LEVEL_NOTE = 'Matrix entries of the generic kinds are seeded; sizes bounded by 64; conditioning of generic squares bounded by 1e3 (re-drawn otherwise).'
 ASSUMPTIONS = ['numpy.linalg.pinv is trusted', 'a measurement participates iff ||Q^T pinv(Q^T) 1 - 1||_inf <= 1e-8 (the alphabet has no borderline matrices)']
 
-KINDS = ['identity', 'scaled', 'prefix', 'ranges', 'gensquare', 'gentall', 'diff', 'ones_e1']
+KINDS = ['identity', 'scaled', 'prefix', 'ranges', 'gensquare', 'gentall', 'diff', 'ones_e1', 'identity_total', 'stacked']
 WRAPS = ['dense', 'sparse', 'linop']
 SIZES = [1, 2, 3, 4, 8, 16, 32, 64]
 NOISES = [0.5, 1.0, 3.0]
@@ -65,6 +65,10 @@ def matrix(kind, n, rng):
             if np.linalg.cond(Q) <= 1e3:
                 return Q
         return Q
+    if kind == 'identity_total':   # tall, equal column sums, rows of different weight: [I; 1^T]
+        return np.vstack([np.eye(n), np.ones((1, n))])
+    if kind == 'stacked':          # tall, equal column sums: [I; 3I]
+        return np.vstack([np.eye(n), 3.0 * np.eye(n)])
     if kind == 'diff':
         if n < 2:
             return None
@@ -216,8 +220,27 @@ def supplied_case(acc, total, engine_name):
     return fails
 
 
+def history_case(acc, warm, engines, totals):
+    """E3: consecutive estimate calls on ONE estimator over the same cliques with different (supplied or omitted) totals"""
+    from mbi import Domain, FactoredInference
+    attrs, sizes = ['A', 'B'], [3, 4]
+    eng = FactoredInference(Domain(attrs, sizes), iters=3, warm_start=warm)
+    fails = []
+    for step, (engine, total) in enumerate(zip(engines, totals)):
+        N = 20.0 * (step + 2)
+        xa, xb = np.array([0.5, 0.3, 0.2]) * N, np.array([0.1, 0.2, 0.3, 0.4]) * N
+        ms = [(np.eye(3), xa.copy(), 1.0, ('A',)), (np.tril(np.ones((4, 4))), np.tril(np.ones((4, 4))) @ xb, 2.0, ('B',))]
+        with M.quiet():
+            model = eng.estimate(ms, total=total, engine=engine)
+        want = total if total is not None else N
+        sums = [float(model.project(t).datavector().sum()) for t in [('A',), ('B',), ('B', 'A')]]
+        if abs(model.total - want) > 1e-6 * want or any(abs(x - want) > 1e-6 * want for x in sums):
+            fails.append('call %d (%s, total=%r, noise-free N=%g): model.total=%r, answers sum to %r' % (step + 1, engine, total, N, model.total, sums))
+    return fails
+
+
 def jobs(tier, seed):
-    out = []
+    out = [{'mode': 'history', 'seed': seed, 'tier': tier}]
     for est in ['FactoredInference', 'LocalInference', 'PublicInference', 'MixtureInference']:
         for kind in KINDS:
             out.append({'mode': 'single', 'estimator': est, 'kind': kind, 'seed': seed, 'tier': tier})
@@ -247,8 +270,28 @@ def cases_of(job):
                                'estimator': job['estimator'], 'seed': job['seed']}
 
 
+def history_jobs():
+    out = []
+    for warm in (False, True):
+        for engines in itertools.product(['MD', 'RDA', 'IG'], repeat=2):
+            for totals in [(100.0, 250.0), (100.0, None), (None, 40.0), (None, None), (7.5, 7.5)]:
+                out.append((warm, list(engines), list(totals)))
+        out.append((warm, ['MD', 'MD', 'MD', 'MD'], [100.0, 250.0, 40.0, None]))
+    return out
+
+
 def run_job(job):
     acc = Acc()
+    if job['mode'] == 'history':
+        for warm, engines, totals in history_jobs():
+            case = {'history': True, 'warm': warm, 'engines': engines, 'totals': totals}
+            acc.case(case)
+            fails = history_case(acc, warm, engines, totals)
+            acc.outcome('history:%s' % ('ok' if not fails else 'FAIL'))
+            if fails:
+                acc.violate(case, {'kind': 'total-history', 'warm': warm}, 'warm_start=%s: %s' % (warm, '; '.join(fails[:3])))
+        acc.sample(case)
+        return acc
     if job['mode'] == 'supplied':
         for total in [1, 1.0, 7.25, 1000, 1e6]:
             for eng in ['MD', 'RDA', 'IG', 'Local', 'Public']:
@@ -276,6 +319,11 @@ def run_job(job):
 
 def replay(case):
     acc = Acc()
+    if case.get('history'):
+        fails = history_case(acc, case['warm'], case['engines'], case['totals'])
+        for f in fails:
+            print(f)
+        return [{'key': {'kind': 'total-history'}, 'msg': '; '.join(fails[:4])}] if fails else []
     if 'supplied' in case:
         fails = supplied_case(acc, case['supplied'], case['engine'])
     else:
